@@ -981,7 +981,18 @@ class TorsionRegularizer(keras.regularizers.Regularizer):
         floats to specify different regularization amount per dimension. The
         amount of regularization for the interaction term between two dimensions
         is the product of the corresponding per dimension amounts.
+
+    Raises:
+      ValueError: If provided input does not correspond to `lattice_sizes`.
     """
+    lattice_lib.verify_hyperparameters(
+        lattice_sizes=lattice_sizes,
+        regularization_amount=l1,
+        regularization_info="l1")
+    lattice_lib.verify_hyperparameters(
+        lattice_sizes=lattice_sizes,
+        regularization_amount=l2,
+        regularization_info="l2")
     self.lattice_sizes = lattice_sizes
     self.l1 = l1
     self.l2 = l2
